@@ -66,7 +66,8 @@ int mpf_QSwrite_prob(mpf_QSdata *p, const char *a, const char *b) { return nonde
 int mpq_QSget_x_array(mpq_QSdata *p, mpq_t *x) { DIRTY(); return nondet_int(); }
 int mpq_QSget_pi_array(mpq_QSdata *p, mpq_t *x) { DIRTY(); return nondet_int(); }
 int mpq_QSget_infeas_array(mpq_QSdata *p, mpq_t *x) { DIRTY(); return nondet_int(); }
-int mpq_QSload_basis(mpq_QSdata *p, QSbasis *B) { DIRTY(); return nondet_int(); }
+int g_loaded_ok;
+int mpq_QSload_basis(mpq_QSdata *p, QSbasis *B) { int r = nondet_int(); DIRTY(); g_loaded_ok = (r == 0); return r; }
 
 /* same-TU callees whose bodies are removed and replaced by their (ghost) contracts */
 int QSexact_optimal_test(mpq_QSdata *p, mpq_t *p_sol, mpq_t *d_sol, QSbasis *basis)
@@ -81,7 +82,7 @@ dbl_QSdata *QScopy_prob_mpq_dbl(mpq_QSdata *p, const char *n) { return mk_dbl();
 mpf_QSdata *QScopy_prob_mpq_mpf(mpq_QSdata *p, const char *n) { return mk_mpf(); }
 
 /* callees of the real QSexact_basis_status */
-void mpq_ILLlp_cache_free(mpq_ILLlp_cache *C) { }
+void mpq_ILLlp_cache_free(mpq_ILLlp_cache *C) { }	/* frees the four arrays only (lpdata.c); the arrays are absent here */
 void mpq_ILLlp_sinfo_free(mpq_ILLlp_sinfo *s) { }
 void mpq_ILLlp_rows_clear(mpq_ILLlp_rows *r) { }
 void mpq_free_internal_lpinfo(mpq_lpinfo *lp) { }
@@ -100,6 +101,32 @@ void mpq_ILLfct_set_status_values(mpq_lpinfo *lp, int a, int b, int c, int d)
 { lp->basisstat.optimal = nondet_bool(); lp->basisstat.primal_infeasible = nondet_bool(); lp->basisstat.dual_unbounded = nondet_bool(); lp->basisstat.primal_unbounded = nondet_bool(); lp->basisstat.primal_feasible = nondet_bool(); lp->basisstat.dual_feasible = nondet_bool(); lp->basisstat.dual_infeasible = nondet_bool(); }
 int mpq_QSgrab_cache(mpq_QSdata *p, int st) { return nondet_int(); }
 
+#ifdef FN_basis_status_leak
+/* C18: QSexact_basis_status (static, exact.c:1002; exported with goto-cc --export-file-local-symbols) discards the
+ * stale solution cache before it re-evaluates the basis: the cache block AND the number it embeds (cache->val, a GMP
+ * rational with its own heap storage -- one token in the TOKENS model) are released. */
+extern int qsv_gmp_live;
+int __CPROVER_file_local_exact_c_QSexact_basis_status(mpq_QSdata *p_mpq, int *status, QSbasis *const basis, const int msg_lvl, int *const simplexalgo);
+void harness(void)
+{
+	mpq_QSdata *p = qsv_alloc(sizeof *p);
+	int algo = nondet_int(), status = nondet_int(), rv;
+	QSbasis *B = mk_basis();
+	int live0;
+	p->qslp = qsv_alloc(sizeof *p->qslp); p->lp = qsv_alloc(sizeof *p->lp);
+	p->qslp->nrows = NS; p->qslp->sinfo = 0; p->qslp->rA = 0; p->lp->nrows = NS; p->lp->pIpiz = 0;
+	p->basis = 0; p->simplex_display = 0; p->name = 0;
+	p->cache = qsv_alloc(sizeof *p->cache);
+	mpq_init(p->cache->val);
+	live0 = qsv_gmp_live;
+	rv = __CPROVER_file_local_exact_c_QSexact_basis_status(p, &status, B, 1, &algo);
+	if (g_loaded_ok) {
+		ASSERT(p->cache == 0, "C18: the stale solution cache is discarded before the basis is re-evaluated");
+		ASSERT(qsv_gmp_live == live0 - 1, "C18: the number embedded in the discarded cache (cache->val) is cleared, and every number the function initialises itself is cleared again");
+	}
+	REACH_END();
+}
+#else
 void harness(void)
 {
 	mpq_QSdata *p = qsv_alloc(sizeof *p);
@@ -118,5 +145,6 @@ void harness(void)
 	COVER_MUST(rv == 0 && status == QS_LP_INFEASIBLE, "infeasible");
 	REACH_END();
 }
+#endif
 int getrusage(int who, struct rusage *r) { return 0; }
 QSV_MAIN(harness)
